@@ -172,6 +172,9 @@ def spell_comp(c):
     if k == 'url':
         if c[2] == 'dq-hex':
             return 'url(' + _quote_hex(c[1], '"') + ')'
+        if c[2] == 'bare-hex':
+            # unquoted, every character that is not plain written as a terminated hexadecimal escape
+            return 'url(' + ''.join(ch if ROLE.get(ch) == 'plain' and ch.isascii() else '\\%x ' % ord(ch) for ch in c[1]) + ')'
         if c[2] == 'bare':
             return 'url(' + RV.url_bare(c[1]) + ')'
         return 'url(' + RV.quote(c[1], '"' if c[2] == 'dq' else "'") + ')'
@@ -199,6 +202,7 @@ def _quote_hex(content, q):
 
 
 # characters that are white space for Python (str.isspace, \s) but ordinary content for CSS, each behind an escape
+BARE_HEX_CONTENTS = ['"a"', "'a'", '"', "'", 'a"', '"a', '(a)', 'a)', 'a a', ' a', 'a ', '\na', 'a\n', '\ta', 'a\\a', '\\', 'a,a', ';', '\xe9']
 TERMINATOR_FOLLOWERS = ['\xa0', '\u3000', '\u2009', '\x0b', '\x1c', '\x85', 'x', '\xe9z']
 
 
@@ -744,6 +748,9 @@ def essential(case, v):
         # violation of this clause is left
         c = case['comps'][0]
         content = c[1]
+        if c[2] == 'bare-hex':
+            ess.append('hex-escaped-in-unquoted-url|needs=' + '+'.join(sorted({ROLE[ch] for ch in content if ROLE[ch] != 'plain'})))
+            return '|'.join(ess)
         if c[2].endswith('-hex'):
             # family "terminators": the ingredient is the character that follows an escape written without terminator
             fo = next((ch for ch in content if ch not in 'a\xe9\nz'), 'x')
@@ -1006,6 +1013,9 @@ def run_shard(shard, tier, seed):
                     for form in ('dq-hex', 'sq-hex'):
                         evaluate(res, {'family': 'string', 'comps': [['str', content, form]], 'seps': []}, 2)
                     evaluate(res, {'family': 'url', 'comps': [['url', content, 'dq-hex']], 'seps': []}, 2)
+            # delimiters of the unquoted form written as hexadecimal escapes are content, at the edges too
+            for content in BARE_HEX_CONTENTS:
+                evaluate(res, {'family': 'url', 'comps': [['url', content, 'bare-hex']], 'seps': []}, 2)
             res.sample({'family': 'string', 'comps': [['str', '\xe9\xa0z', 'dq-hex']], 'seps': []})
         elif kind == 'bigint':
             for sign in SIGNS:
